@@ -378,7 +378,7 @@ func genC07Dbus(t *rapid.T) C07Dbus {
 	c.Action = pick(t, "action", []string{"own", "talk", "common"})
 	c.Indent = pick(t, "indent", []string{"  ", "    "})
 	c.Args["bus"] = pick(t, "bus", []string{"system", "session", "accessibility"})
-	c.Args["name"] = pick(t, "name", []string{"org.freedesktop.NetworkManager", "org.gnome.Shell", "org.a", "com.example.Foo_Bar.Baz1", "org.mpris.MediaPlayer2.x"})
+	c.Args["name"] = pick(t, "name", []string{"org.freedesktop.NetworkManager", "org.gnome.Shell", "org.a", "com.example.Foo_Bar.Baz1", "org.mpris.MediaPlayer2.x", "org.gnome.Evolution-alarm-notify", "org.gnome.user-share.webdav"})
 	if c.Action != "own" || chance(t, "ownlabel", 4) {
 		// own takes no label (shipped: upower gives one all the same): it must not end up in a rule
 		c.Args["label"] = pick(t, "label", []string{"systemd-logind", "gnome-shell", "@{p_systemd}", "foo//bar", `"{a,b}"`})
@@ -441,6 +441,7 @@ type C07Profile struct {
 	Body  []string `json:"body"`            // rule lines (2-space indented)
 	Flags string   `json:"flags"`           // header flags
 	Entry string   `json:"entry,omitempty"` // access of the entry point rule ("" = mr)
+	NoAtt bool     `json:"noatt,omitempty"` // the header does not attach @{exec_path} (child profiles, xtables ...)
 }
 
 func (p C07Profile) entryLine() string {
@@ -462,7 +463,11 @@ func (p C07Profile) Text() string {
 	if p.Flags != "" {
 		fl = " flags=(" + p.Flags + ")"
 	}
-	fmt.Fprintf(&b, "profile %s @{exec_path}%s {\n  include <abstractions/base>\n\n%s\n", p.Name, fl, p.entryLine())
+	att := " @{exec_path}"
+	if p.NoAtt {
+		att = ""
+	}
+	fmt.Fprintf(&b, "profile %s%s%s {\n  include <abstractions/base>\n\n%s\n", p.Name, att, fl, p.entryLine())
 	for _, l := range p.Body {
 		b.WriteString(l + "\n")
 	}
@@ -507,6 +512,7 @@ func genC07Set(t *rapid.T, kind string) C07Set {
 		}
 		p.Flags = maybe(t, "flags", []string{"complain", "attach_disconnected"})
 		p.Entry = pick(t, "entry", []string{"", "", "mrix", "r", "rix", "mrix"})
+		p.NoAtt = chance(t, "noatt", 5)
 		s.Profiles = append(s.Profiles, p)
 		s.Args = append(s.Args, p.Name)
 	}
